@@ -224,8 +224,12 @@ def buildSchema (kind : ProtoKind) (ext : Exts) (psm : Option PsmKey) : Outcome 
     | .timestamp =>
       let hasRules := match ext.itemC with | some .timestamp => true | _ => false
       .ok (.timestamp hasRules (listPayload (fun | .timestamp p => some p | _ => none) ext.list))
-    | .date => .ok (.date (listPayload (fun | .date p => some p | _ => none) ext.list))
-    | .decimal => .ok (.decimal (listPayload (fun | .decimal p => some p | _ => none) ext.list))
+    | .date =>
+      let rules : Option TextBoundRules := match ext.j5 with | some (.date r) => some r | _ => none
+      .ok (.date rules (listPayload (fun | .date p => some p | _ => none) ext.list))
+    | .decimal =>
+      let rules : Option TextBoundRules := match ext.j5 with | some (.decimal r) => some r | _ => none
+      .ok (.decimal rules (listPayload (fun | .decimal p => some p | _ => none) ext.list))
     | .any =>
       let (od, types) : Bool × List String := match ext.j5 with | some (.any od ts) => (od, ts) | _ => (false, [])
       .ok (.any od types (listPayload (fun | .any p => some p | _ => none) ext.list))
